@@ -10,7 +10,12 @@
      declares FABRICATED (the vault counter set directly through the keeper: an unreachable state,
      outside the property's quantifier) an agreed panic is model validation only: no predicate
      failure, no finding.  In every other case a panic of a hook is a predicate failure outside
-     every known class, and the reachability assumption counter <= capacity is itself checked. *)
+     every known class, and the reachability assumption counter <= capacity is itself checked;
+   - error cases (a unit RETURNS AN ERROR after it has written): Hooks.holds_C15 on (hook returned,
+     diff class of the failing unit, others processed); Hooks.table_says_propagates unit &&
+     Hooks.table_says_apply_atomic (the closure hands the error on and ApplyFuncIfNoError drops the
+     branch) must agree with "the failing unit's cache was not written back"; a case that was built to
+     contain a failing-late unit and does not is a disagreement too. *)
 open Conv
 
 let coq_string (s : string) : String.string =
@@ -27,11 +32,17 @@ let run (path : string) =
   let case = ref "" and kind = ref "" and csig = ref "" in
   let case_work = ref false in
   let fabricated = ref false in
+  (* error case: the unit it is about, and whether a failing-late item was seen *)
+  let err_unit = ref "" and err_late = ref false in
+  let end_err () =
+    if !kind = "err" && not !err_late then
+      mismatch ~case:!case ~step:!steps ~field:("errcase[" ^ !err_unit ^ "].failing_late_item") ~model:"present" ~impl:"absent" in
   (* sweep lines of the current hook: cap counter off batch (stored uint64 values) *)
   let sweep : (string, (string * BinNums.coq_Z * BinNums.coq_Z * BinNums.coq_Z * BinNums.coq_Z)) Hashtbl.t = Hashtbl.create 4 in
   let zle a b = Z.leq (zz_of_z a) (zz_of_z b) in
   let end_case () =
     if !case <> "" then begin
+      end_err ();
       incr cases;
       if !case_work then incr nontrivial;
       Hashtbl.replace distinct (Digest.string !csig) ()
@@ -44,6 +55,34 @@ let run (path : string) =
       | "case" :: id :: "crash" :: hook :: st :: _ ->
         end_case (); case := id; kind := "crash"; csig := "crash " ^ hook ^ " " ^ st; case_work := false; fabricated := false;
         bump ("crash:" ^ hook)
+      | "case" :: id :: "err" :: unit :: hook :: st :: _ ->
+        end_case (); case := id; kind := "err"; csig := "err " ^ unit ^ " " ^ hook ^ " " ^ st; case_work := false; fabricated := false;
+        err_unit := unit; err_late := false;
+        bump ("err:" ^ unit)
+      | "errprobe" :: _ :: _ :: _ :: cls :: _ ->
+        incr steps;
+        if cls = "panic" then
+          predfail ~case:!case ~step:!steps ~pred:"hook_returns" ~kf:"none" ~detail:"hook_panicked_in_error_case";
+        bump ("errprobe:" ^ cls)
+      | "item" :: _ :: _ :: failed :: wrote :: _ ->
+        bump ("item:" ^ (if bool_of_tok failed then "failed" else "ok") ^ (if bool_of_tok wrote then "+wrote" else "+no-writes"))
+      | "e" :: unit :: item :: late :: wrapped :: committed :: returned :: diff :: others :: _ ->
+        incr steps; bump ("errunit:" ^ unit); bump ("errdiff:" ^ diff);
+        let late = bool_of_tok late in
+        if late then begin err_late := true; case_work := true end;
+        let u = coq_string unit in
+        let says_wrapped = Hooks.table_says_wrapped u in
+        if says_wrapped <> bool_of_tok wrapped then
+          mismatch ~case:!case ~step:!steps ~field:("wrapped[" ^ unit ^ "]") ~model:(tok_of_bool says_wrapped) ~impl:wrapped;
+        (* the model's prediction: the error reaches ApplyFuncIfNoError, which drops the branch *)
+        let says_dropped = says_wrapped && Hooks.table_says_propagates u && Hooks.table_says_apply_atomic in
+        let dropped = not (bool_of_tok committed) in
+        if late && says_dropped <> dropped then
+          mismatch ~case:!case ~step:!steps ~field:("error_drops_branch[" ^ unit ^ "]") ~model:(tok_of_bool says_dropped) ~impl:(tok_of_bool dropped);
+        if not (Hooks.holds_C15 (bool_of_tok returned) (z_of_string diff) (bool_of_tok others)) then
+          predfail ~case:!case ~step:!steps ~pred:"holds_C15" ~kf:"none"
+            ~detail:(Printf.sprintf "unit=%s_item=%s_reported_failure_after_writes=%s_cache_written_back=%s_returned=%s_diff=%s_others=%s"
+                       unit item (tok_of_bool late) committed returned diff others)
       | "fabricated" :: what :: _ ->
         fabricated := true; bump ("fabricated:" ^ what)
       | "sweep" :: hook :: which :: cap :: counter :: off :: batch :: _ ->
